@@ -54,6 +54,9 @@ type matcherS struct {
 	salt, thresh, verr  int
 	cancel              bool
 	remoteErr           bool
+	// ec: class of the error this matcher's scripted faults (store.Get,
+	// Vulnerable, remote call) return — see scriptedErr; not an input of the model
+	ec int
 	remote              []remoteEnt
 }
 
@@ -61,6 +64,7 @@ type enricherS struct {
 	kind       int
 	msgs       []int
 	fail, sees bool
+	ec         int // class of the error a failing enricher returns
 }
 
 type scenario struct {
@@ -143,11 +147,11 @@ func (s *scenario) lines(tag string) []string {
 		out = append(out, fmt.Sprintf("row %d %d %d %d %d %d %d", r.v.id, r.v.payload, r.name, r.dist, r.repo, b2i(r.fixed), b2i(r.inRange)))
 	}
 	for _, m := range s.matchers {
-		out = append(out, fmt.Sprintf("matcher kind=%s names=%s dists=%s repos=%s q=%s salt=%d thresh=%d verr=%d cancel=%d remote=%s",
-			m.kind, ints(m.names), ints(m.dists), ints(m.repos), ints(m.q), m.salt, m.thresh, m.verr, b2i(m.cancel), m.remoteSpec()))
+		out = append(out, fmt.Sprintf("matcher kind=%s names=%s dists=%s repos=%s q=%s salt=%d thresh=%d verr=%d cancel=%d remote=%s ec=%d",
+			m.kind, ints(m.names), ints(m.dists), ints(m.repos), ints(m.q), m.salt, m.thresh, m.verr, b2i(m.cancel), m.remoteSpec(), m.ec))
 	}
 	for _, e := range s.enrichers {
-		out = append(out, fmt.Sprintf("enricher kind=%d msgs=%s fail=%d sees=%d", e.kind, ints(e.msgs), b2i(e.fail), b2i(e.sees)))
+		out = append(out, fmt.Sprintf("enricher kind=%d msgs=%s fail=%d sees=%d ec=%d", e.kind, ints(e.msgs), b2i(e.fail), b2i(e.sees), e.ec))
 	}
 	if s.api == "new" {
 		out = append(out, s.setupLines()...)
@@ -290,6 +294,9 @@ func genScenario(r *hx.Rand, count func(string)) *scenario {
 			m.thresh = r.Intn(9)
 		}
 		if faulty {
+			if r.Chance(1, 2) {
+				m.ec = 1 + r.Intn(nErrClasses-1)
+			}
 			if r.Chance(1, 8) {
 				m.verr = r.Intn(16)
 			}
@@ -338,6 +345,9 @@ func genScenario(r *hx.Rand, count func(string)) *scenario {
 	}
 	for i := 0; i < ne; i++ {
 		e := enricherS{kind: 1 + r.Intn(3), fail: r.Chance(1, 5), sees: r.Chance(1, 2)}
+		if r.Chance(1, 2) {
+			e.ec = 1 + r.Intn(nErrClasses-1)
+		}
 		for k := r.Intn(4); k > 0; k-- {
 			e.msgs = append(e.msgs, r.Intn(50))
 		}
@@ -501,6 +511,7 @@ func parseScenario(lines []string) (*scenario, error) {
 			m.thresh, _ = strconv.Atoi(kv["thresh"])
 			m.verr, _ = strconv.Atoi(kv["verr"])
 			m.cancel = kv["cancel"] == "1"
+			m.ec, _ = strconv.Atoi(kv["ec"])
 			if m.remote, m.remoteErr, err = parseRemote(kv["remote"]); err != nil {
 				return bad(err)
 			}
@@ -514,6 +525,7 @@ func parseScenario(lines []string) (*scenario, error) {
 			kv := kvs(f[1:])
 			e := enricherS{fail: kv["fail"] == "1", sees: kv["sees"] == "1"}
 			e.kind, _ = strconv.Atoi(kv["kind"])
+			e.ec, _ = strconv.Atoi(kv["ec"])
 			if e.msgs, err = parseInts(kv["msgs"]); err != nil {
 				return bad(err)
 			}
